@@ -83,23 +83,33 @@ func Process(stmts []*proto.Statement, rwrand, rwtime bool) (retErr error) {
 func ContainsTime(stmt string) bool {
 	// Since this is a simple substring search, it also matches datetime(
 	// and strftime(.
-	targets := []string{"time(", "date(", "julianday(", "unixepoch(", "timediff("}
-	for _, target := range targets {
-		if strings.Contains(stmt, target) {
-			return true
-		}
-	}
-	return false
+	return containsCall(stmt, "time", "date", "julianday", "unixepoch", "timediff")
 }
 
 // ContainsRandom returns true if the statement contains a random-related function.
 // The function performs a lower-case comparison so it is up to the caller to
 // ensure the statement is lower-cased.
 func ContainsRandom(stmt string) bool {
-	targets := []string{"random(", "randomblob("}
-	for _, target := range targets {
-		if strings.Contains(stmt, target) {
-			return true
+	return containsCall(stmt, "random", "randomblob")
+}
+
+// containsCall returns true if any of the names is followed by an opening
+// parenthesis. SQL allows whitespace and comments between a function name and
+// its parenthesis, and the name itself may be quoted, so closing quotes and
+// whitespace are skipped, and a comment in that position is treated as a
+// possible call.
+func containsCall(stmt string, names ...string) bool {
+	for _, name := range names {
+		for i := 0; ; {
+			j := strings.Index(stmt[i:], name)
+			if j < 0 {
+				break
+			}
+			rest := strings.TrimLeft(stmt[i+j+len(name):], " \t\n\r\f\v\"`]")
+			if strings.HasPrefix(rest, "(") || strings.HasPrefix(rest, "/*") || strings.HasPrefix(rest, "--") {
+				return true
+			}
+			i += j + 1
 		}
 	}
 	return false
